@@ -16,6 +16,7 @@ go-libp2p-raft@v0.1.7 fsm.go/codec.go/consensus.go, hashicorp/raft@v1.1.1 snapsh
   origins and panics in `ProtoMarshal` (process crash); `ApplyTo` nils `LogOp.Cid` first, so an unpin
   op clears the stale pointer without a crash. A decodable op applied while `inconsistent` still
   changes the store (Apply does not look at the flag);
+* the tracker calls are dispatched asynchronously (`GoContext`, a goroutine each): `arrivalAllowed`;
 * `FSM.Snapshot()` only returns a handle (refused when not initialized or inconsistent); the state is
   serialised by `Persist()`, which hashicorp/raft calls later while entries keep being applied:
   `snapBegin` records the index, `snapPersist` captures the store AS IT IS THEN;
@@ -66,6 +67,18 @@ inductive Call where
 def callOf : Op → Call
   | .pin p => .track p
   | .unpin p => .untrack p
+
+def Call.cid : Call → Nat
+  | .track p => p.cid
+  | .untrack p => p.cid
+
+def Call.isTrack : Call → Bool
+  | .track _ => true
+  | .untrack _ => false
+
+/-- `ApplyTo` dispatches with `rpcClient.GoContext`: one goroutine per call, not awaited. The calls of
+    entries applied back to back may therefore reach the tracker in any order. -/
+def arrivalAllowed (dispatched arrived : List Call) : Bool := arrived.isPerm dispatched
 
 structure Snap where
   idx : Nat
